@@ -208,6 +208,18 @@ def fmt_path(p):
 
 
 class StrV(V):
+    """symbolic string (output-expression node).  A string all of whose pieces are literals is the constant itself."""
+    def __new__(cls, node=None):
+        from .strtree import flatten, SLit, SCat
+        if node is None:         # copy / deepcopy protocol
+            return object.__new__(cls)
+        f = flatten(node)
+        if isinstance(f, SLit):
+            return Const(f.text)
+        if isinstance(f, SCat) and not f.parts:
+            return Const("")
+        return object.__new__(cls)
+
     def __init__(self, node):
         self.node = node
 
